@@ -18,7 +18,8 @@ from ._common import run_cases, shard_rng, split_shards, tolist
 ID = "C07"
 LEVEL = "exploration"
 RULE = ("ALL (m, k) pairs with m <= 12 rows and k in {None, 1..m+2} (114 pairs, exhaustive) x retain_graph both ways x >= 3 random "
-        "programs per pair x {backward, mtl_backward (m = number of tasks)}, plus random programs and a vmap-hostile workload (custom "
+        "programs per pair x {backward, mtl_backward (m = number of tasks)}, plus m in {65, 100, 129, 257} x k in {None, 1, 2, 63, 64, 65, m-1, m, m+2} "
+        "(backward), plus random programs and a vmap-hostile workload (custom "
         "autograd.Function whose backward calls .item()); non-trivial = m >= 2 and 1 < k < m (several batched sweeps); distinct = "
         "(entry, m, k, retain, program) sha1")
 EXHAUSTIVE_NOTE = {"quick": "the (m,k) grid m<=12, k in {None,1..m+2} is enumerated completely (3 programs per pair and entry point)",
@@ -44,6 +45,11 @@ def shards(tier, seed):
         for i in range(n):
             out.append({"kind": "grid", "entry": entry, "pairs": g[i::n], "per_pair": PER_PAIR[tier]})
     out += split_shards("hostile", 160 if tier == "quick" else 3000, 2 if tier == "quick" else 8)
+    # more rows than any plausible internal cap (64, 128, 256 ...): the default None must still mean ONE sweep
+    big = [(m, k) for m in (65, 100, 129, 257) for k in (None, 1, 2, 63, 64, 65, m - 1, m, m + 2)]
+    nb = 4 if tier == "quick" else 8
+    for i in range(nb):
+        out.append({"kind": "large", "pairs": big[i::nb], "per_pair": 1 if tier == "quick" else 6})
     return out
 
 
@@ -51,7 +57,7 @@ def requirements(tier):
     return {"grid_pairs_backward": 114, "grid_pairs_mtl": 114, "sweep_count_checked": 1000, "rows_per_sweep_checked": 1000,
             "sequential_no_batched_checked": 40, "values_equal_k1_checked": 500, "head_swept_once_checked": 300,
             "hostile_k1_succeeded": 30, "hostile_single_row_succeeded": 5, "w_several_batched_sweeps": 100, "w_k_larger_than_m": 100,
-            "w_retain_false": 200, "w_retain_true": 200, "vmap_recorder_hits": 1, "grad_recorder_hits": 1}
+            "w_retain_false": 200, "w_retain_true": 200, "large_pairs_backward": 36, "w_more_than_64_rows_default_chunk": 4, "vmap_recorder_hits": 1, "grad_recorder_hits": 1}
 
 
 def info(g):
@@ -137,7 +143,7 @@ def run_backward(desc, k, retain, hooks=True):
 def check_backward(case, ctx):
     desc, m, k, retain = case["program"], case["m"], case["k"], case["retain"]
     b, log, err, rec = run_backward(desc, k, retain)
-    slim = {**case, "program": {kk: v for kk, v in desc.items() if kk != "deps"}}
+    slim = {**case, "program": dict(desc)}  # (deps kept: the replay needs them)
     if err is not None:
         ctx.violation("backward_raised", slim, {"error": repr(err)[:300], "m": m, "k": k, "retain_graph": retain})
         ctx.evaluated()
@@ -188,6 +194,8 @@ def _witness(ctx, m, k, retain):
         ctx.count("w_several_batched_sweeps")
     if k is not None and k > m:
         ctx.count("w_k_larger_than_m")
+    if k is None and m > 64:
+        ctx.count("w_more_than_64_rows_default_chunk")
     ctx.count("w_retain_true" if retain else "w_retain_false")
 
 
@@ -230,7 +238,7 @@ def check_mtl(case, ctx):
     t = len(desc["heads"])
     b, log, err, rec = run_mtl(desc, k, retain)
     from . import C02
-    slim = {**case, "program": C02._slim({"program": desc})["program"]}
+    slim = {**case, "program": dict(desc)}  # (deps kept: the replay needs them)
     chained = P.feature_nodes_chained(b.features)
     if err is not None:
         ctx.violation("mtl_backward_raised", slim, {"error": repr(err)[:300], "m": t, "k": k, "retain_graph": retain, "features_chained": chained})
@@ -308,7 +316,7 @@ def check_mtl(case, ctx):
 def check_hostile(case, ctx):
     desc, m, k = case["program"], case["m"], case["k"]
     b, log, err, rec = run_backward(desc, k, False)
-    slim = {**case, "program": {kk: v for kk, v in desc.items() if kk != "deps"}}
+    slim = {**case, "program": dict(desc)}
     if k == 1 or m == 1:
         if err is not None:
             ctx.violation("sequential_differentiation_failed_on_vmap_hostile_graph", slim, {"error": repr(err)[:300], "m": m, "k": k})
@@ -353,6 +361,13 @@ def run_shard(shard, ctx):
                         return {"program": P.gen_mtl_program(r, dtype, n_heads=m), "m": m, "k": k, "retain": retain}
                     run_cases(ctx, rng, 1, gen, check_mtl)
             ctx.count(f"grid_pairs_{shard['entry']}")
+    elif shard["kind"] == "large":
+        for m, k in shard["pairs"]:
+            for rep in range(shard["per_pair"]):
+                def gen(r, i):
+                    return {"program": P.with_rows(P.gen_program(r, "float64"), m, r), "m": m, "k": k, "retain": bool(rep % 2)}
+                run_cases(ctx, rng, 1, gen, check_backward)
+            ctx.count("large_pairs_backward")
     elif shard["kind"] == "hostile":
         def gen(r, i):
             m = int(r.integers(1, 7)) if i % 6 else 1
